@@ -240,6 +240,21 @@ theorem registry_dict_calls (k v : HType) :
     FnRegistry.applyOk "keySet" [.dict k v] (.set k) = true ∧ FnRegistry.applyOk "keys" [.dict k v] (.array k) = true ∧
     FnRegistry.applyOk "values" [.dict k v] (.array v) = true := FnRegistry.dict_call_ok k v
 
+/-- vectorised arithmetic on numeric arrays (scalar on either side, or two arrays): the return type is fixed by the implementation —
+`**` always gives `array<float64>` -/
+theorem registry_vectorised_calls (t : HType) (h : FnRegistry.isNum t = true) :
+    FnRegistry.applyOk "pow" [t, .array t] (.array .float64) = true ∧ FnRegistry.applyOk "pow" [.array t, t] (.array .float64) = true ∧
+    FnRegistry.applyOk "pow" [.array t, .array t] (.array .float64) = true ∧
+    FnRegistry.applyOk "add" [t, .array t] (.array t) = true ∧ FnRegistry.applyOk "sub" [.array t, t] (.array t) = true ∧
+    FnRegistry.applyOk "mul" [.array t, .array t] (.array t) = true ∧ FnRegistry.applyOk "floordiv" [t, .array t] (.array t) = true ∧
+    FnRegistry.applyOk "mod" [.array t, t] (.array t) = true ∧
+    FnRegistry.applyOk "div" [t, .array t] (.array (if t = .float32 then .float32 else .float64)) = true :=
+  FnRegistry.vectorised_ok t h
+
+theorem registry_pow_is_not_elementwise (t : HType) (h : FnRegistry.isNum t = true) (hne : t ≠ .float64) :
+    FnRegistry.applyOk "pow" [t, .array t] (.array t) = false ∧ FnRegistry.applyOk "pow" [.array t, t] (.array t) = false :=
+  FnRegistry.vectorised_pow_not_elementwise t h hne
+
 /-- **the coerced call is well typed**: `a.append(x)` emitted as `(Apply append Array[t] a (Cast x t))` — the item converted to the
 element type first — is typable whenever `a : array<t>` and `x` is of a type that converts to `t`; … -/
 theorem coerced_append_well_typed (Γ : Ctx) (Δ : Option Ctx) (a x : IR) (s t : HType)
